@@ -20,10 +20,9 @@
                      operands (any earlier folds, any casts, containers <= n) the
                      folder's result is the circuit's result on exactly the wires
                      the program sees of the operands;
-   [nested_wide_shift_refuted] the same statement is FALSE for the big path of
-                     << (also for >> & | ^ &^: they read big(), which is negative
-                     for a folded 64-bit constant with bit 63 set): finding F6m,
-                     witness uint128(-uint64(5)) << 64. *)
+   [nested_wide_bitops]  the same for & | ^ &^ (the big path reads ubig(): repair of
+                     finding F6m); [nested_wide_shift_repaired]: the former F6m
+                     witnesses uint128(-uint64(5)) << 64 and >> 63 now agree. *)
 From Coq Require Import ZArith Znumtheory List Bool Lia.
 From Mpc Require Import Lang.Fold Lang.FoldProof Lang.FoldClassProof.
 Import ListNotations.
@@ -174,24 +173,75 @@ Example nested_mul_witness :
   = Ok (3 * 2 ^ 64 - 15).
 Proof. vm_compute. reflexivity. Qed.
 
-(* F6m: on the big path <<, >>, &, |, ^, &^ read big() — negative for such an
-   operand.  Model of the constant variant and of the run-time variant of
-   uint128(-uint64(5)) << 64. *)
+(* F6m REPAIRED (mpint.go ubig()): the big path of & | ^ &^ << >> reads its operands
+   as the non-negative number their bits spell. *)
+Definition inrange (m : mint) : Prop := mbits m <= 64 -> - 2 ^ 63 <= mval m < 2 ^ 64.
+
+Lemma ubig_inval m : held m -> inrange m -> 0 < mbits m -> ubig m = inval m.
+Proof.
+  intros [Hs Hb] Hr Hp. unfold ubig, inval, big.
+  destruct (isSmall m) eqn:Es.
+  - assert (H64 : mbits m <= 64) by (apply Z.leb_le; exact Es).
+    specialize (Hs H64). specialize (Hr H64). rewrite (BitLen_small _ Es) in Hs.
+    set (U := u64 (small m)) in *.
+    assert (HU : 0 <= U < 2 ^ 64) by apply u64_range.
+    destruct (bl_bounds U 64 HU ltac:(lia)) as [B1 B2].
+    assert (HUm : U = (mval m) mod 2 ^ 64) by (unfold U, small; rewrite u64_wrap; reflexivity).
+    assert (E2 : (mval m) mod 2 ^ mbits m = U).
+    { rewrite <- (mod_mod_pow2 (mval m) (mbits m) 64) by lia. rewrite <- HUm.
+      apply Z.mod_small. pose proof (pow2_le (bl U) (mbits m) ltac:(lia)). lia. }
+    rewrite E2. simpl andb.
+    destruct (mval m <? 0) eqn:En; [symmetry; exact HUm|].
+    apply Z.ltb_ge in En. rewrite HUm. symmetry. apply Z.mod_small. lia.
+  - assert (H64 : 64 < mbits m) by (apply Z.leb_gt; exact Es).
+    specialize (Hb H64). simpl andb. symmetry. apply Z.mod_small. lia.
+Qed.
+
+Definition wide_bitop (op : binop) : bool :=
+  match op with OBand | OBor | OBxor | OBclr => true | _ => false end.
+
+(* & | ^ &^ at a declared width n > 64 on ANY two held operands (folded 64-bit
+   constants with bit 63 set included): the folded constant is the circuit's result
+   on exactly the wires the program sees of the operands. *)
+Theorem nested_wide_bitops op k n ml mr x y :
+  wide_bitop op = true -> 64 < n -> held x -> held y -> inrange x -> inrange y ->
+  0 < mbits x <= n -> 0 < mbits y <= n ->
+  exists c, evalConst op (CI (mkT k n ml) x) (CI (mkT k n mr) y) = Ok c /\
+    good c k n (snd (circuit_sem op k n (const_wires (CI (mkT k n ml) x)) (const_wires (CI (mkT k n mr) y)))).
+Proof.
+  intros Hop Hn Hx Hy Rx Ry Hbx Hby.
+  rewrite (held_wires k n ml x Hx Hbx), (held_wires k n mr y Hy Hby).
+  pose proof (ubig_inval x Hx Rx ltac:(lia)) as Ux. pose proof (ubig_inval y Hy Ry ltac:(lia)) as Uy.
+  pose proof (inval_range x ltac:(lia)) as HA0. pose proof (inval_range y ltac:(lia)) as HB0.
+  pose proof (pow2_le (mbits x) n ltac:(lia)) as Hpx. pose proof (pow2_le (mbits y) n ltac:(lia)) as Hpy.
+  set (A := inval x) in *. set (B := inval y) in *.
+  assert (HA : 0 <= A < 2 ^ n) by lia. assert (HB : 0 <= B < 2 ^ n) by lia.
+  unfold evalConst, resultTypeCC.
+  assert (Hs : isSmall (mkM n 0) = false) by (apply Z.leb_gt; simpl; lia).
+  assert (Hmx : Z.max n n = n) by lia.
+  assert (Hp : 0 < 2 ^ n) by (apply pow2_pos; lia).
+  destruct op; try discriminate Hop; simpl; rewrite kind_eqb_refl; simpl; rewrite (mNew_ok n) by lia; simpl;
+    unfold mAnd, mOr, mXor, mAndNot; rewrite Hs; simpl mbits; rewrite Ux, Uy;
+    simpl; (eexists; split; [reflexivity|]);
+    unfold circuit_sem, instr_sem; simpl snd; rewrite ?Hmx.
+  - pose proof (bitop_range Z.land andb A B n ltac:(lia) eq_refl ltac:(intros; apply Z.land_spec) HA HB).
+    rewrite Z.mod_small by lia. apply good_result_big; lia.
+  - pose proof (bitop_range Z.lor orb A B n ltac:(lia) eq_refl ltac:(intros; apply Z.lor_spec) HA HB).
+    rewrite Z.mod_small by lia. apply good_result_big; lia.
+  - pose proof (bitop_range Z.lxor xorb A B n ltac:(lia) eq_refl ltac:(intros; apply Z.lxor_spec) HA HB).
+    rewrite Z.mod_small by lia. apply good_result_big; lia.
+  - pose proof (bitop_range Z.ldiff (fun p q => p && negb q) A B n ltac:(lia) eq_refl ltac:(intros; apply Z.ldiff_spec) HA HB).
+    rewrite Z.mod_small by lia. apply good_result_big; lia.
+Qed.
+
+(* the former F6m witnesses: constant variant = run-time variant *)
 Definition f6m_const : expr :=
   EBin OLsh (ECast KUint 128 (ENeg (ECast KUint 64 (ELit 5)))) (ELit 64).
 Definition f6m_runtime : expr :=
   EBin OLsh (ECast KUint 128 (ENeg (EIn KUint 64 5))) (ELit 64).
 
-Theorem nested_wide_shift_refuted :
-  run_program KUint 128 f6m_const = Ok (3 * 2 ^ 64) /\
-  run_program KUint 128 f6m_runtime = Ok ((2 ^ 64 - 5) * 2 ^ 64).
-Proof. split; vm_compute; reflexivity. Qed.
-
-Theorem nested_wide_bitops_refuted :
-  forallb (fun op =>
-    match run_program KUint 128 (EBin op (ECast KUint 128 (ENeg (ECast KUint 64 (ELit 5)))) (ECast KUint 128 (ELit (2 ^ 100 + 1)))),
-          run_program KUint 128 (EBin op (ECast KUint 128 (ENeg (EIn KUint 64 5))) (EIn KUint 128 (2 ^ 100 + 1))) with
-    | Ok a, Ok b => negb (a =? b)
-    | _, _ => false
-    end) [OBand; OBxor; OBclr] = true.
-Proof. vm_compute. reflexivity. Qed.
+Theorem nested_wide_shift_repaired :
+  run_program KUint 128 f6m_const = Ok ((2 ^ 64 - 5) * 2 ^ 64) /\
+  run_program KUint 128 f6m_runtime = Ok ((2 ^ 64 - 5) * 2 ^ 64) /\
+  run_program KUint 128 (EBin ORsh (ECast KUint 128 (ENeg (ECast KUint 64 (ELit 1)))) (ELit 63)) = Ok 1.
+Proof. repeat split; vm_compute; reflexivity. Qed.
